@@ -26,13 +26,18 @@ CLAIM = dict(
     text="Theorems in DarsiaProps.C02 about the executable model DarsiaModel.ImageMeta (data as root-index lists, numpy slicing as "
     "drop/take, rational geometry): sub_placed (one subregion by ANY tuple of slices with non-empty result: data block = parent block "
     "at the normalised start, coordinate(v) = parent coordinate(v + start) for every v, voxel size unchanged, time/date/series/scalar carried), "
+    "physical_box_clipped (a physical box with corners at the coordinates of arbitrary voxel positions selects what the VoxelArray of the floored positions selects, "
+    "reversed and non-reversed axes, all dims), roi_clipping (selected range = boxRange; voxel j selected iff lo <= j < hi and j in the image; ROI entirely outside selects nothing), "
     "nest (any program of subregion / VoxelArray / CoordinateArray / time_slice / time_interval steps of ANY length keeps the image placed "
     "in the root with composed offsets; induction over the program), physical_eq_voxel_box, time_slice / time_interval bookkeeping, "
-    "stack_slice (stack then time_slice returns data, dates and relative times), append_offset_keeps_times (an explicit offset, 0 included, "
+    "stack_slice (stack then time_slice returns data, dates and relative times). DATA ON ARRAYS (DarsiaModel.ImageArr: pixel array = function from the raw "
+    "numpy index to a value tag; numpy index arithmetic of subregion/time_slice/time_interval/np.stack): extract_data_eq (for every root - scalar/vector, single/series - "
+    "and every extraction program: entry (t,v,c) of the result = root entry (root time index of slab t, v + composed offset, c)), extract_data_inv, append_data_eq, "
+    "stack_slice_data. append_offset_keeps_times (an explicit offset, 0 included, "
     "keeps the stored relative times also for dated images), time_interval_keeps_stored_times. The relative time of a slab is what the parent "
-    "stored (roots with dates AND independent stored times are covered), not a function of its date. Tie: differential correspondence on random programs "
+    "stored (roots with dates AND independent stored times are covered), not a function of its date. Tie: differential correspondence on random programs (metadata + slab index lists, AND the whole pixel array entry by entry against np.arange-coded payloads) "
     "(exact, dyadic geometries) + oracle on the implementation tracing every voxel back to its root voxel.",
-    note="geometry on general (non-dyadic) floats is only covered by the oracle with a stated tolerance; Image.slice / reduce_axis are not part of C02; "
+    note="the model has value semantics: that stack() leaves the images passed in untouched and that extraction results do not alias their parent are checked by the oracle on the implementation; geometry on general (non-dyadic) floats is only covered by the oracle with a stated tolerance; Image.slice / reduce_axis are not part of C02; "
     "tuple-of-slices reaching beyond the image are clipped since the fix of Image.subregion (before: outside the property's quantifier).",
     technique="Lean 4 proof (invariant over extraction programs) + differential correspondence + oracle search",
 )
@@ -161,6 +166,20 @@ def decode_slabs(im):
 
 def root_multi(sp, rshape):
     return np.stack(np.unravel_index(sp.ravel(), rshape), axis=1).reshape(sp.shape + (len(rshape),))
+
+
+def arr_str(im):
+    """The whole pixel array as the model driver prints it (shape | every entry, C order)."""
+    if isinstance(im, Raised):
+        return repr(im)
+    a = np.asarray(im.img)
+    return " ".join(str(int(x)) for x in a.shape) + " | " + " ".join(str(int(x)) for x in a.ravel())
+
+
+def aline(line, vector):
+    """`prog/stack/append ...` request -> the array request `aprog/astack/aappend C ...`."""
+    op, rest = line.split(" ", 1)
+    return f"a{op} {2 if vector else 1} {rest}"
 
 
 def describe(im, roots):
@@ -374,7 +393,7 @@ def expected_selection(tok, parent):
                 vox.append(v)
             pts = vox
         lo = [max(0, min(int(p_[a]) for p_ in pts)) for a in range(dim)]
-        hi = [min(max(int(p_[a]) for p_ in pts), N[a]) for a in range(dim)]
+        hi = [max(0, min(max(int(p_[a]) for p_ in pts), N[a])) for a in range(dim)]
         return parent.img[tuple(slice(l, h) for l, h in zip(lo, hi))]
     tail = (slice(None),) if not parent.scalar else ()
     if w[0] == "tslice":
@@ -448,8 +467,20 @@ def stack_eval(d, rs, offs):
             line = f"append {root_tokens(rs[0], origin)} {root_tokens(rs[1], origin)} {fmts([offs[0]])}"
     else:
         offs_ = [0] * (n - 1)
-        res = call(d.stack, [x.copy() for x in ims])
+        # stack receives the image objects themselves; independently built twins serve as the record of "the originals"
+        twins = [build_root(d, r) for r in rs]
+        passed, ims = ims, twins
+        res = call(d.stack, passed)
         line = f"stack {n} " + " ".join(root_tokens(r, origin) for r in rs)
+        if not isinstance(res, Raised):
+            for k in range(n):
+                a_, b_ = passed[k], twins[k]
+                same = (a_ is not res and bool(a_.series) == bool(b_.series) and a_.img.shape == b_.img.shape and np.array_equal(a_.img, b_.img)
+                        and a_.time == b_.time and a_.date == b_.date)
+                if not same:
+                    fails.append((f"C02:stack:changes-its-input:image-{'0' if k == 0 else 'k>0'}",
+                                  f"after stack(images) of {n} single-time images, images[{k}] is no longer the original: series={a_.series}, data shape {a_.img.shape} "
+                                  f"(original {b_.img.shape}), time {a_.time} (original {b_.time})" + ("; stack returned images[0] itself" if a_ is res else "")))
     if isinstance(res, Raised):
         return line, res, rs, offs, [(f"C02:stack:raises:{res!r}", f"stacking {n} single-time images ({tkind}) raises {res!r}")]
     shift = offs if with_offsets else [0] * (n - 1)
@@ -487,7 +518,7 @@ def assembled_eval(d, ra, rb, off, rng=None, steps=None):
     acc = a.copy()
     rr = call(acc.append, b2.copy()) if off is None else call(acc.append, b2.copy(), off)
     if isinstance(rr, Raised):
-        return head, repr(rr), [], []
+        return head, repr(rr), [], [], repr(rr)
     fails = []
     ta, tb = as_list(a.time, True), as_list(b2.time, True)
     da, db = as_list(a.date, True), as_list(b2.date, True)
@@ -534,11 +565,11 @@ def assembled_eval(d, ra, rb, off, rng=None, steps=None):
             fails.append((f"C02:extraction:raises:{im!r}", f"valid extraction program on an assembled series raises {im!r}"))
         else:  # e.g. undated receiver + dated image: time_slice derives a time from the date with reference date None -> TypeError
             OUTSIDE[f"mixed-series-extraction-raises:{im!r}"] = OUTSIDE.get(f"mixed-series-extraction-raises:{im!r}", 0) + 1
-        return line, repr(im), fails, steps
+        return line, repr(im), fails, steps, repr(im)
     dsc = call(describe, im, roots)
     if not (any(n_ == 0 for n_ in im.img.shape[: im.space_dim]) or im.time_num == 0):
         fails += trace_check(d, acc, ra, im, True, slabpos)
-    return line, ("!undescribable" if isinstance(dsc, Raised) else dsc), fails, steps
+    return line, ("!undescribable" if isinstance(dsc, Raised) else dsc), fails, steps, arr_str(im)
 
 
 def alias_eval(d, rp, mode):
@@ -629,11 +660,50 @@ def physical_box_check(d, rng, im, dyadic, box=None):
         return [("C02:physical-box!=voxel-box", f"box with corners at voxels {vp.tolist()}: physical ROI gives shape {a.img.shape}, voxel ROI {b.img.shape}")]
     # and it is the block between the floored corners, clipped
     lo = [max(0, int(np.floor(vp[:, k].min()))) for k in range(dim)]
-    hi = [min(int(np.floor(vp[:, k].max())), N[k]) for k in range(dim)]
+    hi = [max(0, min(int(np.floor(vp[:, k].max())), N[k])) for k in range(dim)]
     want = im.img[tuple(slice(l, h) for l, h in zip(lo, hi))]
     if want.shape != a.img.shape or not np.array_equal(want, a.img):
         return [("C02:physical-box:not-the-floored-clipped-block", f"corners at voxels {vp.tolist()}: got shape {a.img.shape}, block {lo}..{hi}")]
     return []
+
+
+def outside_box_check(d, im, dyadic, box, kind):
+    """A ROI lying ENTIRELY outside the image on some axis selects no voxel (empty result on that axis).
+    `box`: two corner points in (fractional) voxel positions; kind: 'voxel' (VoxelArray) or 'coordinate' (CoordinateArray)."""
+    dim = im.space_dim
+    N = list(im.img.shape[:dim])
+    vp = np.array(box, dtype=float)
+    out_axes = [a for a in range(dim) if np.floor(vp[:, a]).max() <= 0 or np.floor(vp[:, a]).min() >= N[a]]
+    if not out_axes:
+        return []
+    if kind == "voxel":
+        roi = d.make_voxel(np.floor(vp).astype(int))
+    else:
+        roi = d.make_coordinate(np.asarray(im.coordinatesystem.coordinate(vp)))
+    res = call(im.subregion, roi)
+    if isinstance(res, Raised):
+        return []  # refusing such a ROI is acceptable; selecting voxels is not
+    fails = []
+    for a in out_axes:
+        if res.img.shape[a] != 0:
+            side = "negative-side" if np.floor(vp[:, a]).max() <= 0 else "beyond-side"
+            fails.append((f"C02:roi-entirely-outside:{kind}:{side}:selects-voxels",
+                          f"ROI with corners at voxel positions {vp.tolist()} lies entirely outside the image (shape {N}) on axis {a} but subregion returned {res.img.shape[a]} voxels on that axis (result shape {res.img.shape[:dim]})"))
+    return fails
+
+
+def gen_outside_box(rng, N, dyadic):
+    dim = len(N)
+    a = rng.randrange(dim)
+    off = 0.0 if dyadic else 0.125
+    box = [[rng.randint(0, 4 * n) / 4 + off for n in N] for _ in range(2)]
+    if rng.random() < 0.5:
+        lo = -rng.randint(1, 3 * N[a] + 6) / 2
+        box[0][a], box[1][a] = lo - rng.randint(1, 6) / 2 + off, lo + off  # floor(max) <= -1 < 0 ... at most 0 below
+    else:
+        lo = N[a] + rng.randint(0, 6) / 2
+        box[0][a], box[1][a] = lo + off, lo + rng.randint(1, 6) / 2 + off
+    return box
 
 
 def run(ctx):
@@ -674,6 +744,9 @@ def run(ctx):
             else:
                 dsc = call(describe, final, {r["rid"]: r})
                 impl.append("!undescribable" if isinstance(dsc, Raised) else dsc)
+            # the pixel ARRAY itself, entry by entry, against the array model
+            lines.append(aline(line, r["vector"]))
+            impl.append(arr_str(final))
         if isinstance(final, Raised):
             bump("raised:" + repr(final))
             if malformed_at is None:
@@ -684,6 +757,10 @@ def run(ctx):
             continue
         for sig, what in trace_check(d, root, r, final, dyadic):
             ctx.fail(sig, f"{what}; program: {line}", {"program": line, "root": r, "steps": toks[1:], "signature": sig})
+        obox = gen_outside_box(rng, list(final.img.shape[: final.space_dim]), dyadic)
+        for kind in ("voxel", "coordinate"):
+            for sig, what in outside_box_check(d, final, dyadic, obox, kind):
+                ctx.fail(sig, f"{what}; after program: {line}", {"program": line, "root": r, "steps": toks[1:], "outside_box": obox, "signature": sig})
         box = [[rng.randint(-4, 4 * n_ + 4) / 4 + (0.0 if dyadic else 0.125) for n_ in final.img.shape[: final.space_dim]] for _ in range(2)]
         for sig, what in physical_box_check(d, rng, final, dyadic, box):
             ctx.fail(sig, f"{what}; after program: {line}", {"program": line, "root": r, "steps": toks[1:], "box": box, "signature": sig})
@@ -703,6 +780,8 @@ def run(ctx):
                                 ctx.count(("one-step", line))
                                 lines.append(line)
                                 impl.append(repr(sub) if isinstance(sub, Raised) else describe(sub, {1: r}))
+                                lines.append(aline(line, False))
+                                impl.append(arr_str(sub))
                                 if isinstance(sub, Raised):
                                     ctx.fail(f"C02:extraction:raises:{sub!r}", line, {"program": line, "root": r, "steps": [line.split(" ; ", 1)[1]]})
                                 else:
@@ -731,6 +810,8 @@ def run(ctx):
             else:
                 dsc = call(describe, res, {r["rid"]: r for r in rs})
                 impl.append("!undescribable" if isinstance(dsc, Raised) else dsc)
+            lines.append(aline(line, rs[0]["vector"]))
+            impl.append(arr_str(res))
     # series ASSEMBLED by append (offset None / 0 / 0.0 / non-zero; dated, undated, both, mixed), then extraction programs:
     # every extracted slab must carry exactly the time and date the assembled series stores for it
     for n in range(ctx.pick(120, 1500)):
@@ -745,8 +826,10 @@ def run(ctx):
         if isinstance(out, Raised):
             ctx.mark("CORR-BROKEN", {"correspondence": "assembled", "roots": [ra, rb], "error": repr(out.exc)})
             continue
-        line, dsc, fails, steps = out
+        line, dsc, fails, steps, adsc = out
         ctx.count(("assembled", line))
+        lines.append(aline(line, ra["vector"]))
+        impl.append(adsc)
         bump(f"assembled:{ra['tkind']}+{rb['tkind']}:offset={'None' if off is None else ('zero' if off == 0 else 'nonzero')}")
         lines.append(line)
         impl.append(dsc)
@@ -779,7 +862,7 @@ def replay(data):
     case = data.get("replay", data)
     want = case.get("signature", data.get("signature"))
     if case.get("kind") == "assembled":
-        line, dsc, fails, _ = assembled_eval(d, case["roots"][0], case["roots"][1], case["offset"], None, case["steps"])
+        line, dsc, fails, _, _ = assembled_eval(d, case["roots"][0], case["roots"][1], case["offset"], None, case["steps"])
         print(f"C02 replay {line}\n  result: {dsc}")
     elif case.get("kind") == "alias":
         fails = alias_eval(d, case["roots"][0], case["mode"])
@@ -800,12 +883,15 @@ def replay(data):
             if isinstance(im, Raised):
                 fails.append((f"C02:extraction:raises:{im!r}", f"step `{tok}` raises {im!r}"))
                 break
-            want = call(expected_selection, tok, parent)
-            if not isinstance(want, Raised) and (want.shape != im.img.shape or not np.array_equal(want, im.img)):
-                fails.append((f"C02:wrong-block-selected:{tok.split()[0]}", f"step `{tok}` returned data of shape {im.img.shape}, the denoted block has shape {want.shape}"))
+            wsel = call(expected_selection, tok, parent)
+            if not isinstance(wsel, Raised) and (wsel.shape != im.img.shape or not np.array_equal(wsel, im.img)):
+                fails.append((f"C02:wrong-block-selected:{tok.split()[0]}", f"step `{tok}` returned data of shape {im.img.shape}, the denoted block has shape {wsel.shape}"))
         if not isinstance(im, Raised):
             dyadic = r.get("dyadic", True)
             fails = fails + trace_check(d, root, r, im, dyadic) + physical_box_check(d, random.Random(0), im, dyadic, case.get("box"))
+            if case.get("outside_box"):
+                for kind in ("voxel", "coordinate"):
+                    fails = fails + outside_box_check(d, im, dyadic, case["outside_box"], kind)
             print("  result:", describe(im, {r["rid"]: r}))
     hit = [f for f in fails if f[0] == want] or fails
     for sig, what in hit[:5]:
